@@ -14,7 +14,6 @@ import (
 	"testing/synctest"
 	"time"
 
-	builderclient "github.com/attestantio/go-builder-client"
 	"github.com/attestantio/go-eth2-client/spec/phase0"
 	"github.com/attestantio/vouch/services/beaconblockproposer"
 	standardproposer "github.com/attestantio/vouch/services/beaconblockproposer/standard"
@@ -103,12 +102,37 @@ type Input struct {
 	Relays      []Relay     `json:"relays"`
 	SubmitOK    bool        `json:"submit_ok"`
 	Deadline    uint64      `json:"deadline"`
-	Tags        []string    `json:"tags,omitempty"`
+	// how long the accounts provider and the account's RANDAO signing take (ms of fake time; they
+	// matter when Prepare calls of several duties overlap)
+	AccLat  uint64   `json:"acc_lat,omitempty"`
+	SignLat uint64   `json:"sign_lat,omitempty"`
+	Tags    []string `json:"tags,omitempty"`
+	// A history on ONE service instance: the further duties this same proposer service (and signer)
+	// handles, each with its own environment answers, and the order of the Prepare / Propose calls.
+	// Duty 0 is this input, duty k is Others[k-1].  What belongs to the service's construction (spe,
+	// unblind_all, boost, plain, trace, whether a graffiti provider / an auctioneer is configured) is
+	// this input's for every duty.  An empty Order is: each duty in turn, Prepare (if do_prepare)
+	// then Propose.
+	Others []Input `json:"others,omitempty"`
+	Order  []Op    `json:"order,omitempty"`
+	Shape  string  `json:"shape,omitempty"` // how the generator related the duties and ordered the calls (a label)
+}
+
+type Op struct {
+	Duty int    `json:"duty"`
+	Op   string `json:"op"` // prepare | propose
+	// a Prepare call made in its own goroutine: the next call of the order starts without waiting for
+	// it (the controller prepares all the duties of an epoch at once); every such call has returned
+	// before the next call without this flag starts
+	Go bool `json:"go,omitempty"`
 }
 
 type Obs struct {
 	PrepEvents []Event  `json:"prep_events"`
 	PrepOK     bool     `json:"prep_ok"`
+	// the duty as it is handed to Propose: the account and the RANDAO reveal it carries
+	PostAccount *uint64 `json:"post_account"`
+	PostRandao  uint64  `json:"post_randao"`
 	Panic      bool     `json:"panic"`
 	PanicMsg   string   `json:"panic_msg,omitempty"`
 	Events     []Event  `json:"events"`
@@ -215,115 +239,289 @@ func horizon(in *Input) time.Duration {
 	return time.Duration(max+2000) * time.Millisecond
 }
 
-func runCase(t *testing.T, in *Input) Obs {
-	var obs Obs
-	func() {
-		defer func() {
-			if r := recover(); r != nil {
-				obs.Panic = true
-				obs.PanicMsg = fmt.Sprintf("bubble: %v", r)
+// duties returns the duties of the history: the input itself and its Others, the latter brought to
+// the service-level configuration of the former (one service instance has one configuration).
+func duties(in *Input) []*Input {
+	ds := []*Input{in}
+	for i := range in.Others {
+		o := &in.Others[i]
+		o.SPE, o.UnblindAll, o.Boost, o.Plain, o.Trace = in.SPE, in.UnblindAll, in.Boost, in.Plain, in.Trace
+		if in.Graffiti == "none" {
+			o.Graffiti = "none"
+		} else if o.Graffiti == "none" {
+			o.Graffiti = "ok"
+		}
+		if in.Auction == "none" {
+			o.Auction = "none"
+		} else if o.Auction == "none" {
+			o.Auction = "err"
+		}
+		o.Others, o.Order = nil, nil
+		ds = append(ds, o)
+	}
+	return ds
+}
+
+// schedule is the order of the calls: in.Order when it is a valid one (every duty proposed exactly
+// once, prepared exactly once before that iff do_prepare), otherwise duty after duty.
+func schedule(in *Input, ds []*Input) []Op {
+	valid := len(in.Order) > 0
+	prepared, proposed := make([]int, len(ds)), make([]int, len(ds))
+	for _, op := range in.Order {
+		if op.Duty < 0 || op.Duty >= len(ds) {
+			valid = false
+			break
+		}
+		switch op.Op {
+		case "prepare":
+			if proposed[op.Duty] > 0 {
+				valid = false
 			}
-		}()
-		synctest.Test(t, func(t *testing.T) {
-			rec := &recorder{start: time.Now(), calls: make([][]Call, len(in.Relays))}
-			w := &world{in: in, rec: rec, tab: &bodyTable{m: map[phase0.Root]uint64{}}}
-			level := zerolog.Disabled
-			if in.Trace {
-				level = zerolog.TraceLevel
+			prepared[op.Duty]++
+		case "propose":
+			proposed[op.Duty]++
+			if op.Go {
+				valid = false
 			}
-			ctx0 := context.Background()
-			signer, err := standardsigner.New(ctx0,
-				standardsigner.WithLogLevel(level),
-				standardsigner.WithMonitor(nullmetrics.New()),
-				standardsigner.WithClientMonitor(nullmetrics.New()),
-				standardsigner.WithSpecProvider(w),
-				standardsigner.WithDomainProvider(w),
-			)
-			if err != nil {
-				t.Fatalf("signer constructor: %v", err)
+		default:
+			valid = false
+		}
+	}
+	for k, d := range ds {
+		want := 0
+		if d.DoPrepare {
+			want = 1
+		}
+		if proposed[k] != 1 || prepared[k] != want {
+			valid = false
+		}
+	}
+	if valid {
+		return in.Order
+	}
+	var ops []Op
+	for k, d := range ds {
+		if d.DoPrepare {
+			ops = append(ops, Op{Duty: k, Op: "prepare"})
+		}
+		ops = append(ops, Op{Duty: k, Op: "propose"})
+	}
+	return ops
+}
+
+func accountID(a any) *uint64 {
+	switch x := a.(type) {
+	case nil:
+		return nil
+	case *account:
+		if x == nil {
+			return nil
+		}
+		return u(x.id)
+	case *plainAccount:
+		if x == nil {
+			return nil
+		}
+		return u(x.id)
+	}
+	return u(Unknown)
+}
+
+// overlapBroken is set when overlapping Prepare calls once failed to return (a deadlock in the
+// tree under test): later histories make their Prepare calls one after the other.
+var overlapBroken bool
+
+// runSession runs the whole history of the input on one proposer service (and one signer) and
+// returns what was observed for each duty.  Prepare calls flagged to overlap (they open the order)
+// are made first, in goroutines of their own in real time -- goroutines waiting for a sync.Mutex
+// would stall the fake clock of a bubble for ever -- under a watchdog; every other call is made
+// inside one synctest bubble, one at a time.
+func runSession(t *testing.T, in *Input) []Obs {
+	ds := duties(in)
+	ops := schedule(in, ds)
+	obs := make([]Obs, len(ds))
+	done := make([]bool, len(ds))
+	for k := range obs {
+		obs[k].PrepOK = true
+	}
+	together := 0
+	for together < len(ops) && ops[together].Go && ops[together].Op == "prepare" {
+		together++
+	}
+	if overlapBroken {
+		together = 0
+	}
+
+	var (
+		svc      *standardproposer.Service
+		rt       *router
+		worlds   []*world
+		dutyObjs []*beaconblockproposer.Duty
+	)
+	ctx0 := context.Background()
+	setup := func() {
+		tab := &bodyTable{m: map[phase0.Root]uint64{}}
+		rt = &router{head: in}
+		worlds = make([]*world, len(ds))
+		for k, d := range ds {
+			worlds[k] = newWorld(d, tab)
+		}
+		rt.cur = worlds[0]
+		level := zerolog.Disabled
+		if in.Trace {
+			level = zerolog.TraceLevel
+		}
+		signer, err := standardsigner.New(ctx0,
+			standardsigner.WithLogLevel(level),
+			standardsigner.WithMonitor(nullmetrics.New()),
+			standardsigner.WithClientMonitor(nullmetrics.New()),
+			standardsigner.WithSpecProvider(rt),
+			standardsigner.WithDomainProvider(rt),
+		)
+		if err != nil {
+			t.Fatalf("signer constructor: %v", err)
+		}
+		params := []standardproposer.Parameter{
+			standardproposer.WithLogLevel(level),
+			standardproposer.WithMonitor(nullmetrics.New()),
+			standardproposer.WithChainTime(mocks.NewChainTime(in.SPE)),
+			standardproposer.WithProposalDataProvider(rt),
+			standardproposer.WithValidatingAccountsProvider(rt),
+			standardproposer.WithExecutionChainHeadProvider(rt),
+			standardproposer.WithProposalSubmitter(rt),
+			standardproposer.WithRANDAORevealSigner(signer),
+			standardproposer.WithBeaconBlockSigner(signer),
+			standardproposer.WithBlobSidecarSigner(signer),
+			standardproposer.WithUnblindFromAllRelays(in.UnblindAll),
+			standardproposer.WithBuilderBoostFactor(in.Boost),
+		}
+		if in.Graffiti != "none" {
+			params = append(params, standardproposer.WithGraffitiProvider(rGraffiti{rt}))
+		}
+		if in.Auction != "none" {
+			params = append(params, standardproposer.WithBlockAuctioneer(rAuctioneer{rt}))
+		}
+		svc, err = standardproposer.New(ctx0, params...)
+		if err != nil {
+			t.Fatalf("proposer constructor: %v", err)
+		}
+		// the duty objects, as the controller creates them when it learns of the duties
+		dutyObjs = make([]*beaconblockproposer.Duty, len(ds))
+		for k, d := range ds {
+			duty := beaconblockproposer.NewDuty(phase0.Slot(d.Slot), phase0.ValidatorIndex(d.Validator))
+			if d.PreAccount != nil {
+				duty.SetAccount(worlds[k].newAccount(*d.PreAccount))
 			}
-			relays := make([]builderclient.BuilderBidProvider, len(in.Relays))
-			for i, r := range in.Relays {
-				if r.Can {
-					relays[i] = &relayCan{relayBase: relayBase{w: w, i: i}}
-				} else {
-					relays[i] = &relayBase{w: w, i: i}
+			duty.SetRandaoReveal(sigOf(d.PreRandao))
+			dutyObjs[k] = duty
+		}
+	}
+	// one Prepare call; what it observed is written into *o
+	prepare := func(k int, o *Obs) {
+		w := worlds[k]
+		w.begin(false)
+		func() {
+			defer func() {
+				if r := recover(); r != nil {
+					o.Panic = true
+					o.PanicMsg = fmt.Sprintf("Prepare: %v", r)
 				}
-			}
-			params := []standardproposer.Parameter{
-				standardproposer.WithLogLevel(level),
-				standardproposer.WithMonitor(nullmetrics.New()),
-				standardproposer.WithChainTime(mocks.NewChainTime(in.SPE)),
-				standardproposer.WithProposalDataProvider(w),
-				standardproposer.WithValidatingAccountsProvider(w),
-				standardproposer.WithExecutionChainHeadProvider(w),
-				standardproposer.WithProposalSubmitter(w),
-				standardproposer.WithRANDAORevealSigner(signer),
-				standardproposer.WithBeaconBlockSigner(signer),
-				standardproposer.WithBlobSidecarSigner(signer),
-				standardproposer.WithUnblindFromAllRelays(in.UnblindAll),
-				standardproposer.WithBuilderBoostFactor(in.Boost),
-			}
-			if in.Graffiti != "none" {
-				params = append(params, standardproposer.WithGraffitiProvider(graffiti{w}))
-			}
-			if in.Auction != "none" {
-				params = append(params, standardproposer.WithBlockAuctioneer(&auctioneer{w: w, relays: relays}))
-			}
-			svc, err := standardproposer.New(ctx0, params...)
-			if err != nil {
-				t.Fatalf("proposer constructor: %v", err)
-			}
-
-			duty := beaconblockproposer.NewDuty(phase0.Slot(in.Slot), phase0.ValidatorIndex(in.Validator))
-			if in.PreAccount != nil {
-				duty.SetAccount(w.newAccount(*in.PreAccount))
-			}
-			duty.SetRandaoReveal(sigOf(in.PreRandao))
-			obs.PrepOK = true
-			if in.DoPrepare {
-				func() {
-					defer func() {
-						if r := recover(); r != nil {
-							obs.Panic = true
-							obs.PanicMsg = fmt.Sprintf("Prepare: %v", r)
-						}
-					}()
-					obs.PrepOK = svc.Prepare(ctx0, duty) == nil
-				}()
-			}
-			rec.mu.Lock()
-			obs.PrepEvents = rec.events
-			rec.events = nil
-			rec.start = time.Now()
-			rec.mu.Unlock()
-
-			ctx, cancel := context.WithTimeout(ctx0, time.Duration(in.Deadline)*time.Millisecond)
-			defer cancel()
-			func() {
-				defer func() {
-					if r := recover(); r != nil {
-						obs.Panic = true
-						obs.PanicMsg = fmt.Sprintf("Propose: %v", r)
-					}
-				}()
-				svc.Propose(ctx, duty)
 			}()
-			obs.Ret = rec.now()
-			// let every relay goroutine finish
-			if d := horizon(in) - time.Since(rec.start); d > 0 {
-				time.Sleep(d)
+			o.PrepOK = svc.Prepare(rt.with(ctx0, w), dutyObjs[k]) == nil
+		}()
+		w.rec.mu.Lock()
+		o.PrepEvents = w.rec.events
+		w.rec.mu.Unlock()
+	}
+
+	stuck := false
+	if together > 0 {
+		setup()
+		results := make([]Obs, together)
+		finished := make(chan int, together)
+		for i := 0; i < together; i++ {
+			results[i].PrepOK = true
+			go func(i int) {
+				prepare(ops[i].Duty, &results[i])
+				finished <- i
+			}(i)
+		}
+		watchdog := time.After(30 * time.Second)
+		for n := 0; n < together && !stuck; n++ {
+			select {
+			case i := <-finished:
+				k := ops[i].Duty
+				obs[k].PrepOK, obs[k].PrepEvents, obs[k].Panic, obs[k].PanicMsg = results[i].PrepOK, results[i].PrepEvents, results[i].Panic, results[i].PanicMsg
+			case <-watchdog:
+				stuck, overlapBroken = true, true
 			}
-			synctest.Wait()
-			rec.mu.Lock()
-			obs.Events = rec.events
-			obs.Calls = rec.calls
-			obs.Submit = rec.submit
-			rec.mu.Unlock()
-		})
-	}()
-	if obs.Calls == nil {
-		obs.Calls = make([][]Call, len(in.Relays))
+		}
+	}
+
+	var bubble any
+	if !stuck {
+		func() {
+			defer func() {
+				if r := recover(); r != nil {
+					bubble = r
+				}
+			}()
+			synctest.Test(t, func(t *testing.T) {
+				if svc == nil {
+					setup()
+				}
+				for _, op := range ops[together:] {
+					k, d, duty := op.Duty, ds[op.Duty], dutyObjs[op.Duty]
+					o, w := &obs[k], worlds[k]
+					if op.Op == "prepare" {
+						prepare(k, o)
+						synctest.Wait()
+						continue
+					}
+					w.begin(true)
+					o.PostAccount = accountID(duty.Account())
+					reveal := duty.RANDAOReveal()
+					o.PostRandao = get(reveal[:])
+					ctx, cancel := context.WithTimeout(rt.with(ctx0, w), time.Duration(d.Deadline)*time.Millisecond)
+					func() {
+						defer func() {
+							if r := recover(); r != nil {
+								o.Panic = true
+								o.PanicMsg = fmt.Sprintf("Propose: %v", r)
+							}
+						}()
+						svc.Propose(ctx, duty)
+					}()
+					o.Ret = w.rec.now()
+					// let every relay goroutine finish
+					if rest := horizon(d) - time.Since(w.rec.start); rest > 0 {
+						time.Sleep(rest)
+					}
+					synctest.Wait()
+					cancel()
+					w.rec.mu.Lock()
+					o.Events = w.rec.events
+					o.Calls = w.rec.calls
+					o.Submit = w.rec.submit
+					w.proposing = false
+					w.rec.mu.Unlock()
+					done[k] = true
+				}
+			})
+		}()
+	}
+	for k := range obs {
+		if stuck && !done[k] {
+			obs[k].Panic = true
+			obs[k].PanicMsg = "overlapping Prepare calls: one of them did not return within 30 s"
+		}
+		if bubble != nil && !done[k] {
+			obs[k].Panic = true
+			obs[k].PanicMsg = fmt.Sprintf("bubble: %v", bubble)
+		}
+		if obs[k].Calls == nil {
+			obs[k].Calls = make([][]Call, len(ds[k].Relays))
+		}
 	}
 	return obs
 }
@@ -496,6 +694,7 @@ func caseTerm(id uint64, in *Input, o *Obs) string {
 		"c_duty", Record("d_slot", N(in.Slot), "d_validator", N(in.Validator), "d_account", optN(in.PreAccount), "d_randao", N(in.PreRandao)),
 		"c_prepare", Bool(in.DoPrepare),
 		"c_prep_events", eventsTerm(o.PrepEvents), "c_prep_ok", Bool(o.PrepOK),
+		"c_post_account", optN(o.PostAccount), "c_post_randao", N(o.PostRandao),
 		"c_obs", obsTerm(o))
 }
 
@@ -579,7 +778,11 @@ func subset(r *Rand, xs []int, keep int) []int {
 	return out
 }
 
-func gen(r *Rand) Input {
+func gen(r *Rand) Input { return genDuty(r, nil) }
+
+// genDuty draws one duty with its environment; fix (if any) may set slot, validator and the
+// service-level configuration before the environment is drawn around them.
+func genDuty(r *Rand, fix func(*Input)) Input {
 	in := Input{
 		Slot: uint64(r.Range(1, 1<<20)), Validator: uint64(r.Range(0, 2000)),
 		DoPrepare: true, SPE: uint64([]int{1, 6, 8, 32, 32, 32}[r.Intn(6)]),
@@ -594,6 +797,9 @@ func gen(r *Rand) Input {
 		// the last or first slot of an epoch
 		e := uint64(r.Range(1, 1000))
 		in.Slot = e*in.SPE + []uint64{0, in.SPE - 1}[r.Intn(2)]
+	}
+	if fix != nil {
+		fix(&in)
 	}
 	// accounts
 	acct := uint64(r.Range(1, 50))
@@ -729,8 +935,224 @@ func gen(r *Rand) Input {
 	return in
 }
 
+// ---------------------------------------------------------------------------------------------
+// Histories: several duties handled by one service instance.
+
+// the account the accounts provider holds for the duty's own validator
+func ownAccount(in *Input) *uint64 {
+	if in.Accounts == nil {
+		return nil
+	}
+	for _, e := range *in.Accounts {
+		if e.Index == in.Validator {
+			return e.Account
+		}
+	}
+	return nil
+}
+
+func setOwnAccount(in *Input, id uint64) {
+	if in.Accounts == nil {
+		return
+	}
+	for i, e := range *in.Accounts {
+		if e.Index == in.Validator && e.Account != nil {
+			(*in.Accounts)[i].Account = u(id)
+		}
+	}
+}
+
+var relations = []string{"same-epoch-other-validator", "same-epoch-other-validator", "same-validator-other-epoch",
+	"same-validator-same-epoch", "repeat-duty", "same-slot-other-validator", "unrelated"}
+
+// relation of duty d to an earlier duty ref of the same history (computed from the inputs)
+func relationOf(ref, d *Input) string {
+	sameV, sameS, sameE := ref.Validator == d.Validator, ref.Slot == d.Slot, ref.Slot/ref.SPE == d.Slot/ref.SPE
+	switch {
+	case sameV && sameS:
+		return "repeat-duty"
+	case sameV && sameE:
+		return "same-validator-same-epoch"
+	case sameV:
+		return "same-validator-other-epoch"
+	case sameS:
+		return "same-slot-other-validator"
+	case sameE:
+		return "same-epoch-other-validator"
+	}
+	return "unrelated"
+}
+
+func genHistory(r *Rand) Input {
+	head := gen(r)
+	n := []int{2, 2, 2, 3, 3, 4}[r.Intn(6)]
+	all := []*Input{&head}
+	others := make([]Input, 0, n-1)
+	for len(others) < n-1 {
+		ref := all[r.Intn(len(all))]
+		rel := relations[r.Intn(len(relations))]
+		o := genDuty(r, func(in *Input) {
+			in.SPE, in.UnblindAll, in.Boost, in.Plain, in.Trace = head.SPE, head.UnblindAll, head.Boost, head.Plain, head.Trace
+			epoch := ref.Slot / head.SPE
+			otherValidator := func() uint64 {
+				v := uint64(r.Range(0, 2000))
+				if v == ref.Validator {
+					v++
+				}
+				return v
+			}
+			switch rel {
+			case "same-epoch-other-validator":
+				in.Slot, in.Validator = epoch*head.SPE+uint64(r.Intn(int(head.SPE))), otherValidator()
+			case "same-validator-other-epoch":
+				in.Validator = ref.Validator
+				in.Slot = ref.Slot + head.SPE*uint64(r.Range(1, 3))
+				if r.Bool() && ref.Slot >= head.SPE {
+					in.Slot = ref.Slot - head.SPE
+				}
+			case "same-validator-same-epoch":
+				in.Slot, in.Validator = epoch*head.SPE+uint64(r.Intn(int(head.SPE))), ref.Validator
+			case "repeat-duty":
+				in.Slot, in.Validator = ref.Slot, ref.Validator
+			case "same-slot-other-validator":
+				in.Slot, in.Validator = ref.Slot, otherValidator()
+			}
+		})
+		// one validator has one account, another validator another one
+		if a, b := ownAccount(ref), ownAccount(&o); a != nil && b != nil {
+			if o.Validator == ref.Validator {
+				if r.Chance(7, 8) {
+					setOwnAccount(&o, *a)
+				}
+			} else if *a == *b {
+				setOwnAccount(&o, *a+100)
+			}
+		}
+		others = append(others, o)
+		all = append(all, &others[len(others)-1])
+	}
+	head.Others = others
+	ds := duties(&head)
+	// an account's RANDAO reveal is a function of the account and the epoch: the same account asked
+	// again for the same epoch gives the same reveal
+	for j := range ds {
+		for i := 0; i < j; i++ {
+			a, b := ownAccount(ds[i]), ownAccount(ds[j])
+			if a != nil && b != nil && *a == *b && ds[i].Slot/head.SPE == ds[j].Slot/head.SPE && ds[i].SigRandao != nil && ds[j].SigRandao != nil {
+				ds[j].SigRandao = u(*ds[i].SigRandao)
+				break
+			}
+		}
+	}
+	// the order of the calls
+	var ops []Op
+	prep := func(k int) {
+		if ds[k].DoPrepare {
+			ops = append(ops, Op{Duty: k, Op: "prepare"})
+		}
+	}
+	switch kind := r.Intn(10); {
+	case kind < 2:
+		// what the controller does: every duty of the epoch is prepared, all at once in goroutines of
+		// their own, when the epoch's duties are known, and proposed when its slot comes; the accounts
+		// provider and the signer take their time, so that the Prepare calls really overlap
+		head.Shape = "prepare-together-then-propose"
+		for k := range ds {
+			ds[k].AccLat, ds[k].SignLat = uint64(r.Range(0, 30)), uint64(r.Range(0, 30))
+			if ds[k].DoPrepare {
+				ops = append(ops, Op{Duty: k, Op: "prepare", Go: true})
+			}
+		}
+		for k := range ds {
+			ops = append(ops, Op{Duty: k, Op: "propose"})
+		}
+	case kind < 5:
+		head.Shape = "duty-after-duty"
+		for k := range ds {
+			prep(k)
+			ops = append(ops, Op{Duty: k, Op: "propose"})
+		}
+	case kind < 8:
+		head.Shape = "prepare-all-then-propose"
+		for k := range ds {
+			prep(k)
+		}
+		for k := range ds {
+			ops = append(ops, Op{Duty: k, Op: "propose"})
+		}
+	case kind < 9:
+		head.Shape = "prepare-all-then-propose-reversed"
+		for k := range ds {
+			prep(k)
+		}
+		for k := len(ds) - 1; k >= 0; k-- {
+			ops = append(ops, Op{Duty: k, Op: "propose"})
+		}
+	default:
+		head.Shape = "interleaved"
+		next := make([]int, len(ds)) // 0: prepare next, 1: propose next, 2: finished
+		for k := range ds {
+			if !ds[k].DoPrepare {
+				next[k] = 1
+			}
+		}
+		for {
+			var live []int
+			for k := range ds {
+				if next[k] < 2 {
+					live = append(live, k)
+				}
+			}
+			if len(live) == 0 {
+				break
+			}
+			k := live[r.Intn(len(live))]
+			ops = append(ops, Op{Duty: k, Op: []string{"prepare", "propose"}[next[k]]})
+			next[k]++
+		}
+	}
+	head.Order = ops
+	return head
+}
+
+// shapeOf names the order of the calls of a history
+func shapeOf(ops []Op, ds []*Input) string {
+	lastPrepare, firstPropose, sequential, inOrder := -1, len(ops), true, true
+	prevPropose := -1
+	for _, op := range ops {
+		if op.Go {
+			return "prepare-together-then-propose"
+		}
+	}
+	for i, op := range ops {
+		if op.Op == "prepare" {
+			lastPrepare = i
+			if i+1 >= len(ops) || ops[i+1] != (Op{Duty: op.Duty, Op: "propose"}) {
+				sequential = false
+			}
+		} else {
+			if i < firstPropose {
+				firstPropose = i
+			}
+			if op.Duty < prevPropose {
+				inOrder = false
+			}
+			prevPropose = op.Duty
+		}
+	}
+	switch {
+	case sequential && inOrder:
+		return "duty-after-duty"
+	case lastPrepare < firstPropose && inOrder:
+		return "prepare-all-then-propose"
+	case lastPrepare < firstPropose:
+		return "prepare-all-then-propose-other-order"
+	}
+	return "interleaved"
+}
+
 func tagsOf(in *Input) []string {
-	tags := append([]string{}, in.Tags...)
+	var tags []string
 	if p := in.Proposal; p != nil {
 		if p.Blinded {
 			tags = append(tags, "blinded")
@@ -810,7 +1232,7 @@ func count(col *Collector, in *Input, o *Obs) {
 
 func TestC05(t *testing.T) {
 	col := NewCollector("C05", "Check.C05",
-		"one proposal duty per case: Prepare then Propose on the real proposer + real signer with scripted accounts provider, remote-signer account, domain / graffiti / proposal providers, auctioneer, 0-4 relays (three scripted answers each, fake latencies) and submitter, in a synctest bubble; all versions x blinded x one failure position per step. Non-trivial = the proposal request reaches the beacon node (the duty passed validation); distinct by input text")
+		"one proposal duty per case, alone (3 of 5 inputs) or as one of the 2-4 duties of a history handled by ONE proposer service and signer instance (related duties: same epoch / other validator, same validator / other epoch, repeated duty, ...; calls duty after duty, all Prepares first as the controller does, or interleaved), every duty compared on its own: Prepare then Propose on the real proposer + real signer with scripted accounts provider, remote-signer account, domain / graffiti / proposal providers, auctioneer, 0-4 relays (three scripted answers each, fake latencies) and submitter, in a synctest bubble; all versions x blinded x one failure position per step. Non-trivial = the proposal request reaches the beacon node (the duty passed validation); distinct by input text")
 	n := EnvInt("VERIF_N", 500)
 	zerologger.Logger = zerolog.New(io.Discard) // trace-level cases write their log lines nowhere
 	var ins []Input
@@ -819,22 +1241,69 @@ func TestC05(t *testing.T) {
 		ins = append(ins, in)
 	}
 	rng := NewRand(Seed())
-	for i := 0; i < n; i++ {
-		ins = append(ins, gen(rng.Fork()))
+	for total := 0; total < n; {
+		r := rng.Fork()
+		var in Input
+		if r.Chance(2, 5) {
+			in = genHistory(r)
+		} else {
+			in = gen(r)
+		}
+		total += 1 + len(in.Others)
+		ins = append(ins, in)
 	}
 	for i := range ins {
 		in := &ins[i]
-		obs := runCase(t, in)
-		count(col, in, &obs)
-		nt := false
-		for _, e := range obs.Events {
-			if e.Kind == "proposal" {
-				nt = true
+		ds := duties(in)
+		allObs := runSession(t, in)
+		ops := schedule(in, ds)
+		histKey := ""
+		if len(ds) > 1 {
+			col.Count(fmt.Sprintf("history:duties=%d", len(ds)))
+			col.Count("history:order=" + shapeOf(ops, ds))
+			for _, d := range ds {
+				histKey += envTerm(d) + fmt.Sprint(d.Slot, d.Validator, d.DoPrepare)
 			}
+			histKey += fmt.Sprint(ops)
+		} else {
+			col.Count("history:single-duty")
 		}
-		id := col.NextID()
-		col.Add(Case{Term: caseTerm(id, in, &obs), Key: envTerm(in) + fmt.Sprint(in.Slot, in.Validator, in.DoPrepare, in.PreAccount != nil, in.PreRandao, in.UnblindAll, in.Plain, in.Trace),
-			Nontrivial: nt, Tags: tagsOf(in), Sample: map[string]any{"input": in, "observed": obs}})
+		for k, d := range ds {
+			obs := &allObs[k]
+			count(col, d, obs)
+			tags := append(tagsOf(d), d.Tags...)
+			if k > 0 {
+				for _, tg := range in.Tags {
+					if tg == "corpus" {
+						tags = append(tags, tg)
+					}
+				}
+			}
+			if len(ds) > 1 {
+				tags = append(tags, "history")
+				seen := map[string]bool{}
+				for i := 0; i < len(ds); i++ {
+					if i == k {
+						continue
+					}
+					rel := relationOf(ds[i], d)
+					if !seen[rel] {
+						seen[rel] = true
+						tags = append(tags, "history:"+rel)
+						col.Count("history:relation:" + rel)
+					}
+				}
+			}
+			nt := false
+			for _, e := range obs.Events {
+				if e.Kind == "proposal" {
+					nt = true
+				}
+			}
+			id := col.NextID()
+			col.Add(Case{Term: caseTerm(id, d, obs), Key: envTerm(d) + fmt.Sprint(d.Slot, d.Validator, d.DoPrepare, d.PreAccount != nil, d.PreRandao, d.UnblindAll, d.Plain, d.Trace, k) + histKey,
+				Nontrivial: nt, Tags: tags, Sample: map[string]any{"input": in, "duty": k, "observed": obs}})
+		}
 	}
 	if err := col.Flush(); err != nil {
 		t.Fatal(err)
